@@ -66,8 +66,21 @@ def failing_doc(rng):
     ])
 
 
+# documents that fail LATE: every element resolves, the error is raised while the root element is being synthesised,
+# i.e. after the writer may already have been handed the part of the output that precedes the root element
+LATE_FAIL = [
+    '<!-- my diagram -->\n<svg width="wide"><rect wh="10"/></svg>',
+    '<?xml version="1.0"?>\n<svg height="1 2"><rect wh="10" text="t"/></svg>',
+    'leading text <svg width="x"><rect wh="3"/></svg>',
+    '<!-- a --><!-- b -->\n<svg height=".."><circle r="3"/></svg>',
+]
+
+
 def build_pool(rng, n):
     pool, seen = [], set()
+    for t in LATE_FAIL:
+        seen.add(t)
+        pool.append(t.encode("utf-8"))
     docs = [t for t in corpus.texts() if len(t) < 6000]
     while len(pool) < n:
         k = rng.random()
@@ -76,7 +89,7 @@ def build_pool(rng, n):
         elif k < 0.6:
             t = state_doc(rng)
         elif k < 0.8:
-            t = docgen.gen_doc(rng, hostile=0.3, eval_atoms=0.02)[0]
+            t = docgen.gen_doc(rng, hostile=0.3, eval_atoms=0.02, prolog=0.2)[0]
         else:
             t = rng.choice(docs)
         if t in seen:
@@ -341,8 +354,9 @@ def file_effects(ctx, refs, fe, pool):
     d = fe["dir"]
     ip, op = os.path.join(d, "fin.xml"), os.path.join(d, "fout.svg")
     n = 12 if ctx.quick() else 60
-    for i in range(n):
-        data = rng.choice(pool)
+    late = [t.encode("utf-8") for t in LATE_FAIL]
+    for i in range(n + len(late)):
+        data = late[i - n] if i >= n else rng.choice(pool)
         ref = refs.get(data, None)
         if ref[0] not in ("ok", "err"):
             continue
@@ -418,7 +432,7 @@ def run_phases(ctx, phases=("agreement", "sequential", "concurrent", "files")):
     fe["server"].start()
     refs = Refs(acc)
     try:
-        pool = build_pool(ctx.rng("pool"), 24 if quick else 80)
+        pool = build_pool(ctx.rng("pool"), 32 if quick else 100)
         acc.sample(dict(pool_size=len(pool), example=core.trunc(pool[0], 300)), limit=2)
         rng = ctx.rng("agree")
         if "agreement" in phases:
@@ -430,7 +444,7 @@ def run_phases(ctx, phases=("agreement", "sequential", "concurrent", "files")):
                     agreement_case(ctx, refs, fe, data, cfg)
                     acc.nontriv(core.chash("agree", data, core.encode_cfg(cfg)), ["agreement"])
         if "sequential" in phases:
-            sequential_histories(ctx, refs, fe, pool, 4 if quick else 14, 50)
+            sequential_histories(ctx, refs, fe, pool, 6 if quick else 20, 50)
         if "concurrent" in phases:
             concurrent_batches(ctx, refs, fe, pool, 2 if quick else 10, ctx.rng("nt").choice([16, 32]) if quick else 64, 12 if quick else 40)
         if "files" in phases:
